@@ -16,7 +16,8 @@ class _Canon(ast.NodeTransformer):
     """Canonical spelling of comparisons, applied to every parsed module so that no rule depends on it:
     LITERAL <op> expr  ->  expr <mirrored op> LITERAL   (literal = constant or enums.<Class>.<MEMBER>; both operands are side-effect free);
     not (a <op> b)     ->  a <negated op> b             (is, is not, in, not in; == and != only against a literal);
-    if not X: A else: B ->  if X: B else: A."""
+    if not X: A else: B ->  if X: B else: A;
+    t = E; return t     ->  return E."""
     MIRROR = {ast.Eq: ast.Eq, ast.NotEq: ast.NotEq, ast.Lt: ast.Gt, ast.Gt: ast.Lt, ast.LtE: ast.GtE, ast.GtE: ast.LtE, ast.Is: ast.Is, ast.IsNot: ast.IsNot}
     NEG = {ast.Eq: ast.NotEq, ast.NotEq: ast.Eq, ast.Is: ast.IsNot, ast.IsNot: ast.Is, ast.In: ast.NotIn, ast.NotIn: ast.In}
 
@@ -50,6 +51,31 @@ class _Canon(ast.NodeTransformer):
         if isinstance(t, ast.Compare) and len(t.ops) == 1 and isinstance(t.ops[0], (ast.NotEq, ast.IsNot, ast.NotIn)) and node.orelse:
             pos = ast.copy_location(ast.Compare(left=t.left, ops=[self.NEG[type(t.ops[0])]()], comparators=t.comparators), t)
             return ast.copy_location(ast.If(test=pos, body=node.orelse, orelse=node.body), node)
+        return node
+
+    @staticmethod
+    def _inline_return_temps(stmts):
+        out = []
+        i = 0
+        while i < len(stmts):
+            s = stmts[i]
+            nx = stmts[i + 1] if i + 1 < len(stmts) else None
+            if (isinstance(s, ast.Assign) and len(s.targets) == 1 and isinstance(s.targets[0], ast.Name) and isinstance(nx, ast.Return)
+                    and isinstance(nx.value, ast.Name) and nx.value.id == s.targets[0].id):
+                # t = E; return t   ->   return E
+                out.append(ast.copy_location(ast.Return(value=s.value), s))
+                i += 2
+                continue
+            out.append(s)
+            i += 1
+        return out
+
+    def generic_visit(self, node):
+        node = super().generic_visit(node)
+        for fld in ('body', 'orelse', 'finalbody'):
+            v = getattr(node, fld, None)
+            if isinstance(v, list) and v and isinstance(v[0], ast.stmt):
+                setattr(node, fld, self._inline_return_temps(v))
         return node
 
     def visit_UnaryOp(self, node):
